@@ -43,9 +43,13 @@ PROPS["C05"] = dict(
                 "exceptions raised in order, extract_child turns it into None / the single error / an ExceptionGroup, an elaborate_frame "
                 "fault keeps and un-hides the frame. RESIDUE the contracts do not carry: that an error recorded in a NESTED stack (a "
                 "context's inner_stack, a child) stays reachable from the result tree. It does not always: fill_context drops the inner "
-                "stack of a generator-based manager when its registered unwrapper succeeds (known finding F11, reported by the leg and "
-                "suppressed by its witness key only). The bounded leg enumerates every single fault at every dynamic hook invocation in 6 "
-                "scenarios plus bounded pairs and checks retrievability by identity over the whole result tree.",
+                "stack of a generator-based manager when its registered unwrapper succeeds (known finding F11), and the contextlib glue's nested "
+                "extract_outermost on the generator of an EXITING manager returns a Frame, which cannot carry the errors recorded while it was "
+                "built (known finding F19); both are reported by the leg and suppressed by their witness keys only. Also under contract here: "
+                "unwrap_generatorbased_contextmanager (a fault met by that nested call is not 'no frames': it propagates) and elaborate_exit_stack "
+                "(nothing swallowed). The bounded leg enumerates every single fault at every dynamic hook invocation in 9 scenarios (incl. an "
+                "exiting generator-based manager with a registered unwrapper and yields_frames hooks that return plain iterators) plus bounded "
+                "pairs and checks retrievability by identity over the whole result tree.",
     claim="extract_iter (whole real body, all 8 loops cut by invariants), extract_child and extract are executed symbolically from their "
           "entries: no path lets an Exception escape (every hook call site is inside a handler that records it; every pop/index/unpack/"
           "assert is safe); the error ledger clause shows save_errors grows by exactly the exceptions raised, in order, and extract_child "
